@@ -28,6 +28,7 @@ ASSUMPTIONS = [
     'simulated processes share imported modules and memo tables of pure functions; numpy/random generator state, cwd, argv, '
     'entropy, pid and open write buffers are per process',
     'one simulator run inside an iteration is one atomic step (touches only files private to the iteration)',
+    'done-callbacks of pool futures run in a simulated manager thread of the owning process, after the waiters were woken (CPython order)',
     'sampling, not enumeration: a clean batch is evidence over the seeds explored, not proof',
 ]
 
@@ -90,6 +91,14 @@ def main(prop, tier):
                 tally.add('probe_runs_preceded_by_an_earlier_run_in_the_same_driver_process')
             if c.get('second_driver'):
                 tally.add('probe_runs_with_a_second_concurrent_driver_process')
+            if c.get('special') == 'mpf':
+                tally.add('probe_runs_sampling_only_the_fracture_separation_of_the_parallel_fractures_model')
+            if c.get('dup_param'):
+                tally.add('probe_runs_whose_base_input_states_a_sampled_parameter_twice')
+            if c.get('na_output'):
+                tally.add('probe_runs_tracking_an_output_that_is_not_a_number_in_some_iterations')
+            if rec.get('outputs_with_non_numeric_cells'):
+                tally.add('probe_summaries_compared_while_a_column_holds_non_numeric_cells')
             if (rec.get('pools') or 0) > 1:
                 tally.add('probe_runs_using_more_than_one_pool')
             tally.add('embedded_reports', rec.get('embedded_reports_compared') or 0)
@@ -228,6 +237,7 @@ def main(prop, tier):
             'seam_events': tally.c['events'],
             'result_rows_checked': tally.c['rows'],
             'rows_resimulated': tally.c['rows_replayed'],
+            'rows_resimulated_where': 'each in its own process forked from the pristine state of the run child (before it executed anything)',
             'monte_carlo_embedded_reports_compared_with_client': tally.c['embedded_reports'],
             'lock_protocol': ('pylocker acquisitions observed: %d (0 means the driver under test does not use the file lock, as on the '
                               'repaired tree where the parent is the only writer; stale_lock then has nothing to act on)'
